@@ -126,6 +126,7 @@ class Engine(ExprMixin, CallMixin, StmtMixin):
         self._parse_cache = {}
         self.vcs = []
         self.fresh_n = 0
+        self.lex_log = []
         self.reset_stats()
         self.pending = []
         self.old_stack = []
@@ -401,6 +402,18 @@ class Engine(ExprMixin, CallMixin, StmtMixin):
             if z3.is_rational_value(sv):
                 return {"lit": float(sv.as_fraction())}
             return {"expr": str(v)}
+        from .strings import Text, DecStr
+        from .values import IntStr
+        if isinstance(v, (Text, IntStr, DecStr)):
+            out = []
+            for pc in Text.of(v).pieces:
+                if isinstance(pc, str):
+                    out.append({"lit": pc})
+                elif isinstance(pc, IntStr):
+                    out.append({"intstr": self.describe(pc.term, st)})
+                else:
+                    out.append({"dec": self.describe(pc.value, st), "mark": pc.mark})
+            return {"text": out}
         if isinstance(v, tuple):
             return {"tuple": [self.describe(x, st) for x in v]}
         if isinstance(v, Ref):
